@@ -8,3 +8,4 @@ import page_common as _pc
 PAIRS += [_pc.page_abandon_pair()]      # a page with live blocks is unlinked, detached and handed to the segment layer once; nothing is freed
 import seg_common as _sc2
 PAIRS += [_sc2.pairs()[k] for k in ('segment_page_free', 'segment_page_abandon',)]      # last page freed => segment freed; only abandoned pages left => segment abandoned
+PAIRS += [_sc2.pairs()['page_clear']]      # a freed page is wiped (no stale list pointers), its span returned once, the segment counts one page less
